@@ -402,7 +402,7 @@ TEvent ==
                                           THEN [x \in DOMAIN @ \cup {<<R.node, R.hash>>} |->
                                                   IF x = <<R.node, R.hash>> THEN [deadline |-> R.deadline, reloaded |-> FALSE] ELSE @[x]]
                                           ELSE @]
-            ELSE IF R.kind = "PaymentClaimed" THEN [fw EXCEPT !.claimedEv = @ \cup {R.hash}, !.mustClaim = @ \ {<<R.node, R.hash>>}]
+            ELSE IF R.kind = "PaymentClaimed" THEN [fw EXCEPT !.claimedEv = IF R.node \in fw.crashed THEN @ ELSE @ \cup {R.hash}, !.mustClaim = @ \ {<<R.node, R.hash>>}]
             ELSE fw
   /\ IF CoopClose /\ ~Closed(EP(R.chan, R.node))
      THEN \* a cooperative close needs a shutdown exchange and no pending HTLC
